@@ -140,9 +140,9 @@ func machine(input OmegaInput) (output OmegaOutput) {
 
 	// u: no page accessible yet; the page map must exist so that `pages` can populate it
 	u := Memory{Pages: make(map[uint32]*Page)}
-	_, exitReason := DeBlobProgramCode(p)
+	program, exitReason := DeBlobProgramCode(p)
 	// otherwise if deblob(p) = PANIC
-	if exitReason == ExitPanic {
+	if exitReason != ExitContinue {
 		input.VM.Registers[7] = HUH
 		return OmegaOutput{
 			ExitReason: ExitContinue,
@@ -154,6 +154,7 @@ func machine(input OmegaInput) (output OmegaOutput) {
 	input.VM.Registers[7] = n
 	input.Addition.IntegratedPVMMap[n] = IntegratedPVMType{
 		ProgramCode: ProgramCode(p),
+		Program:     &program,
 		Memory:      u,
 		PC:          ProgramCounter(i),
 	}
@@ -388,13 +389,22 @@ func invoke(input OmegaInput) (output OmegaOutput) {
 			pvmLogger.Errorf("host-call function \"invoke\" decode register:%d error : %v", i-1, err)
 		}
 	}
-	// psi preprocess
-	tmpProgram := Program{
-		InstructionData: input.Addition.IntegratedPVMMap[n].ProgramCode,
+	// psi preprocess: the inner machine runs deblob(m[n]_p) - code, bitmask and jump table of the inner blob
+	innerProgram := input.Addition.IntegratedPVMMap[n].Program
+	if innerProgram == nil { // a machine that was not created through `machine`
+		program, exitReason := DeBlobProgramCode(input.Addition.IntegratedPVMMap[n].ProgramCode)
+		if exitReason != ExitContinue {
+			input.VM.Registers[7] = INNERPANIC
+			return OmegaOutput{
+				ExitReason: ExitContinue,
+				Addition:   input.Addition,
+			}
+		}
+		innerProgram = &program
 	}
 	tempMemory := input.Addition.IntegratedPVMMap[n].Memory
 	// wrap m[n]_p (program),  w (registers),  m[n]_u (memory),   g (gas) into NewHost
-	tempHost := NewHost(&tmpProgram, w, &tempMemory, Gas(g), HostCallArgs{}, nil)
+	tempHost := NewHost(innerProgram, w, &tempMemory, Gas(g), HostCallArgs{}, nil)
 
 	var c ExitReason
 	var pcPrime ProgramCounter
